@@ -7,6 +7,6 @@ rsync -a --exclude target --exclude .git /repo/ $d/
 (cd $d && patch -p1 -s < "$patch")
 for p in "$@"; do
   echo "--- $p"
-  VERIF_REPO=$d /verif/check $p ${MUT_ARGS:---no-finder} 2>&1 | grep -v "^WARNING conda" | tail -${MUT_TAIL:-8} || true
+  VERIF_EVIDENCE_DIR=$d/.evidence VERIF_REPO=$d /verif/check $p ${MUT_ARGS:---no-finder} 2>&1 | grep -v "^WARNING conda" | tail -${MUT_TAIL:-8} || true
 done
 rm -rf $d
